@@ -130,3 +130,34 @@ package compile
 //@   ensures result != nil || base != nil
 //@   ensures implies(base == nil, node_path(node) != "")
 //@   ensures implies(base != nil, node_path(node) == "")
+
+// ---------------------------------------------------------------------------
+// Cycle detection (C11). Each recursive resolver carries a set of names already on the current chain:
+// meeting a name again is an error (never a normal return), the set only grows, and the recursive call is
+// made only after the current name has been added - so every activation on a call chain has a distinct
+// name and the chain is no longer than the number of names in the (finite) module set.
+//@ define featKey(m, n) = node_name(m) + ":" + node_name(n)
+//@ func (*Compiler).featureEnabled
+//@   assumed
+//@   modifies *
+//@   keeps map[string]bool
+//@ func (*Compiler).getModuleAndReference
+//@   assumed
+//@   modifies *
+//@   keeps map[string]bool
+//@   ensures result0 != nil && result1 != nil
+//@ func (*Compiler).assertReferenceStatus
+//@   assumed
+//@   modifies *
+//@   keeps map[string]bool
+//@ func (featuresMap).set
+//@   assumed
+//@   modifies *
+//@   keeps map[string]bool
+//@ func (*Compiler).isFeatureValid
+//@   requires c != nil && m != nil && n != nil && featTree != nil
+//@   modifies *
+//@   ensures !old(inmap(featTree, featKey(m, n)))
+//@   ensures inmap(featTree, featKey(m, n)) && forallstr(k, implies(old(inmap(featTree, k)), inmap(featTree, k)))
+//@   callsite inmap(featTree, featKey(m, n))
+//@   loop 0 invariant inmap(featTree, featKey(m, n)) && forallstr(k, implies(old(inmap(featTree, k)), inmap(featTree, k)))
